@@ -349,7 +349,9 @@ Common(c, c2, e) ==
        <<"C17", (c2.mode # "accept_any" /\ c2.pc # "dead") => IvAllInRange(c2.iv)>>,
        <<"C08", (c2.goodSince # 0 /\ ~c2.converged) =>
                   c2.now - c2.goodSince <= Cap(c2.iv.r.n) + Cap(c2.iv.e.n) + 4 * Cap(c2.iv.t.n) + 240>>,
-       <<"C13", c2.ver <= 1>>})
+       <<"C13", c2.ver <= 1>>,
+       (* the manager reads last_update # 0 as "this socket holds synchronised data": true only after a completed exchange *)
+       <<"STUB", (Has(e, "dbg") /\ e.dbg.lu # 0 /\ c2.pc \notin {"dead", "stopping"}) => c2.lastOk # 0>>})
 StepResult(c, e) ==
   LET c0 == AfEnter(c, e)
       pre == IF c0.afalts = {} THEN [c |-> c0, bad |-> {}]
